@@ -81,6 +81,10 @@ def perturbed_texts(mnem):
     for t in ("A,X+", "B,-Y", "D,X++", "A,--S", "5,X+", "5,--Y", "[A,X++]", "[5,--Y]", "#5,X", "#5,PCR", "#,X", ",PCR", "[,PCR]", "A,PCR", "[D,PCR]",
               "[#5,X]", "[#5]", "[#$1234]", "[#L,PCR]", "[#E,Y]", "[#L]", "#L", "<L", ">L", "#5", "<5", ">5"):
         yield t
+    # index registers stepped both before and after the access, or by more than two: no such mode
+    for r in "XYUS":
+        for t in (",-{}+", "0,-{}+", "[,-{}+]", ",--{}++", ",-{}++", ",--{}+", ",{}+++", ",---{}", "[,--{}++]", "[0,-{}+]", "A,-{}+"):
+            yield t.format(r)
     yield "A,B,X,Y,U,S,PC,CC,DP,D"
     yield "A,,B"
     yield "A,B,"
